@@ -19,7 +19,11 @@ Print Assumptions C11_at_most_once.
 Theorem C11_later_outcomes_raise_nothing : forall s o,
   nerr (exec s o) = nerr s +
     match o with
-    | PResolve p _ | PReject p _ => match cs (core_at s p) with Pending => 0 | _ => 1 end
+    | PResolve p _ | PResolveV p | PReject p _ => match cs (core_at s p) with Pending => 0 | _ => 1 end
+    | PInner k _ _ => match inner_of s k with        (* the promise continuation k's callback returned *)
+                      | Some p => match cs (core_at s p) with Pending => 0 | _ => 1 end
+                      | None => 0
+                      end
     | _ => 0
     end.
 Proof. exact settle_error_only_when_not_pending. Qed.
@@ -34,3 +38,34 @@ Example C11_ex_any :
   plog (run_prog [PNew; PNew; PAny [0; 1]; PThen 2 false HSwallow; PResolve 1 4; PReject 0 9; PResolve 1 5])
   = [ERes 2 [4%N]; EErr].
 Proof. vm_compute. reflexivity. Qed.
+
+(* A rejection never triggers a fulfilment continuation: rejecting a promise runs no fulfilment callback at all, however
+   long the chains and whatever handlers, combinators and returned promises hang behind it (s: any state between two
+   operations, i.e. with no continuation run pending). *)
+Theorem C11_rejection_never_fulfils : forall s p e,
+  stack s = [] -> nresolved (exec s (PReject p e)) = nresolved s.
+Proof. exact rejection_never_fulfils. Qed.
+Print Assumptions C11_rejection_never_fulfils.
+
+(* The rethrow handler forwards the SAME exception to the promise derived from the continuation (value-, nothing- or
+   promise-returning) and schedules exactly that promise's continuations, in attachment order, with it; any other
+   handler ends the rejection there: no promise changes state, nothing further is scheduled (fix cea20ea). *)
+Theorem C11_rethrow_forwards_same_exception : forall s k e dst,
+  k < length (conts s) -> jc (cont_at s k) = 0 -> dst < length (cores s) ->
+  (ck (cont_at s k) = KVal dst \/ ck (cont_at s k) = KVoid dst \/ exists i m, ck (cont_at s k) = KProm dst i m) ->
+  let s' := run_task s (TRej k e) in
+  match ch (cont_at s k) with
+  | HThrow => cs (core_at s' dst) = Rejected e
+              /\ stack s' = map (fun r => TRej r e) (creqs (core_at s dst)) ++ stack s
+              /\ plog s' = plog s ++ [ERej k e]
+  | HSwallow => cores s' = cores s /\ stack s' = stack s /\ plog s' = plog s ++ [ERej k e]
+  end.
+Proof. exact rethrow_forwards_same_exception. Qed.
+Print Assumptions C11_rethrow_forwards_same_exception.
+
+(* non-vacuity: a promise-returning chain; the returned promise is rejected after the downstream was attached (the
+   scenario of the seeded change C11b) *)
+Example C11_ex_returned_promise :
+  let s := run_prog [PNew; PThenP 0 MPending HThrow; PThen 1 true HThrow; PThen 3 false HSwallow; PResolve 0 1] in
+  stack s = [] /\ plog (exec s (PInner 1 false 5)) = [ERes 1 [1%N]; ERej 2 5; ERej 3 5].
+Proof. vm_compute. split; reflexivity. Qed.
